@@ -1,184 +1,29 @@
 (* Runner of the dirty-flag correspondence (C01 / C15): replays a history of TaffyTree API calls, given as integers by
    the harness, on a forest of engine-skeleton trees (Model/Engine.v definitions: mutate = edit + mark_dirty with its
-   early exit, memo with compute_hidden_layout) and reports TaffyTree::dirty of every live node after every call. *)
+   early exit, memo with compute_hidden_layout) and reports TaffyTree::dirty of every live node after every call.
+   The forest layer (which node every call edits and marks dirty) is Model/EngineForest.v, instantiated here with the
+   TOY algorithm; Model/EngineReplayRun.v instantiates the same layer with the real algorithms' recorded behaviour. *)
 From Coq Require Import List Bool Arith NArith ZArith Lia.
-From TV Require Import Model.Engine Model.EngineToy.
+From TV Require Import Model.Engine Model.EngineToy Model.EngineForest.
 Import ListNotations.
-
-Definition forest := list ttree.
-Notation TNode := (Node TS TIn TOut TLay).
-Definition leaf (id : N) (none : bool) : ttree := TNode (id, none) (cempty TIn TOut) 0%N [].
-
-Fixpoint find (t : ttree) (id : N) {struct t} : option (list nat) :=
-  match t with
-  | Node _ _ _ _ s _ _ kids =>
-      if N.eqb (fst s) id then Some []
-      else (fix go (ks : list ttree) (k : nat) : option (list nat) :=
-              match ks with
-              | [] => None
-              | c :: r => match find c id with Some p => Some (k :: p) | None => go r (S k) end
-              end) kids 0
-  end.
-
-(* locate a node: index of its root in the forest and path below it *)
-Fixpoint locate (f : forest) (id : N) (k : nat) : option (nat * list nat) :=
-  match f with
-  | [] => None
-  | t :: r => match find t id with Some p => Some (k, p) | None => locate r id (S k) end
-  end.
-
-Definition set_root (f : forest) (k : nat) (t : ttree) : forest := replace_nth k t f.
-Fixpoint remove_at {A} (l : list A) (k : nat) : list A :=
-  match l, k with
-  | [], _ => []
-  | _ :: r, O => r
-  | a :: r, S k' => a :: remove_at r k'
-  end.
-Fixpoint insert_at {A} (l : list A) (k : nat) (x : A) : list A :=
-  match k, l with
-  | O, _ => x :: l
-  | S k', a :: r => a :: insert_at r k' x
-  | S _, [] => [x]
-  end.
-
-Definition subtree_at (f : forest) (id : N) : option ttree :=
-  match locate f id 0 with
-  | Some (k, p) => match nth_error f k with Some t => subtree TS TIn TOut TLay t p | None => None end
-  | None => None
-  end.
-
-(* "edit the node, then mark_dirty it" at the node with this id *)
-Definition mutate_id (f : forest) (id : N) (e : edit TS TIn TOut TLay) : forest :=
-  match locate f id 0 with
-  | Some (k, p) => match nth_error f k with Some t => set_root f k (t_mutate t p e) | None => f end
-  | None => f
-  end.
-
-Definition kids_of_id (f : forest) (id : N) : list ttree :=
-  match subtree_at f id with Some t => kids_of TS TIn TOut TLay t | None => [] end.
-
-Definition parent_of (f : forest) (id : N) : option N :=
-  match locate f id 0 with
-  | Some (k, p) =>
-      match p with
-      | [] => None
-      | _ => match nth_error f k with
-             | Some t => match subtree TS TIn TOut TLay t (removelast p) with
-                         | Some par => Some (fst (style_of TS TIn TOut TLay par))
-                         | None => None end
-             | None => None end
-      end
-  | None => None
-  end.
-
-Definition rot {A} (l : list A) : list A := match l with [] => [] | a :: r => r ++ [a] end.
-
-(* detach the child at index idx of parent (it becomes a root and keeps its caches); parent is marked dirty *)
-Definition detach_idx (f : forest) (par : N) (idx : nat) : forest :=
-  let ks := kids_of_id f par in
-  match nth_error ks idx with
-  | Some ch => mutate_id f par (ESetKids _ _ _ _ (remove_at ks idx)) ++ [ch]
-  | None => f
-  end.
-
-Definition index_of (ks : list ttree) (id : N) : option nat :=
-  (fix go (l : list ttree) (k : nat) := match l with [] => None | c :: r => if N.eqb (fst (style_of TS TIn TOut TLay c)) id then Some k else go r (S k) end) ks 0.
 
 Definition fuel_of (t : ttree) : nat := 64.
 
-Definition step_op (f : forest) (o : list Z) : forest :=
-  match o with
-  | [0; n; none]%Z =>                                     (* set_style *)
-      mutate_id f (Z.to_N n) (ESetStyle _ _ _ _ (Z.to_N n, Z.eqb none 1))
-  | [1; p; nid; none]%Z =>                                (* add_child(p, new leaf) *)
-      mutate_id f (Z.to_N p) (ESetKids _ _ _ _ (kids_of_id f (Z.to_N p) ++ [leaf (Z.to_N nid) (Z.eqb none 1)]))
-  | [2; p; idx; nid; none]%Z =>                           (* insert_child_at_index *)
-      mutate_id f (Z.to_N p) (ESetKids _ _ _ _ (insert_at (kids_of_id f (Z.to_N p)) (Z.to_nat idx) (leaf (Z.to_N nid) (Z.eqb none 1))))
-  | [3; p; idx]%Z => detach_idx f (Z.to_N p) (Z.to_nat idx)   (* remove_child_at_index *)
-  | [4; p; idx; nid; none]%Z =>                           (* replace_child_at_index: old child becomes a root *)
-      let ks := kids_of_id f (Z.to_N p) in
-      match nth_error ks (Z.to_nat idx) with
-      | Some old => mutate_id f (Z.to_N p) (ESetKids _ _ _ _ (replace_nth (Z.to_nat idx) (leaf (Z.to_N nid) (Z.eqb none 1)) ks)) ++ [old]
-      | None => f
-      end
-  | [5; p]%Z => mutate_id f (Z.to_N p) (ESetKids _ _ _ _ (rot (kids_of_id f (Z.to_N p))))   (* set_children, rotated *)
-  | [6; n; p]%Z =>                                        (* remove_child(old parent, n) then add_child(p, n) *)
-      let f1 := match parent_of f (Z.to_N n) with
-                | Some par => match index_of (kids_of_id f par) (Z.to_N n) with Some idx => detach_idx f par idx | None => f end
-                | None => f end in
-      match locate f1 (Z.to_N n) 0 with
-      | Some (k, []) =>
-          match nth_error f1 k with
-          | Some sub => let f2 := remove_at f1 k in
-                        mutate_id f2 (Z.to_N p) (ESetKids _ _ _ _ (kids_of_id f2 (Z.to_N p) ++ [sub]))
-          | None => f1 end
-      | _ => f1
-      end
-  | [7; n]%Z =>                                           (* remove(n): parent marked dirty, children become roots *)
-      let f1 := match parent_of f (Z.to_N n) with
-                | Some par => match index_of (kids_of_id f par) (Z.to_N n) with Some idx => detach_idx f par idx | None => f end
-                | None => f end in
-      match locate f1 (Z.to_N n) 0 with
-      | Some (k, []) => match nth_error f1 k with
-                        | Some sub => remove_at f1 k ++ kids_of TS TIn TOut TLay sub
-                        | None => f1 end
-      | _ => f1
-      end
-  | [8; n]%Z | [9; n]%Z => mutate_id f (Z.to_N n) (ENone _ _ _ _)     (* set_node_context / mark_dirty *)
-  | [10; r; tag]%Z =>                                     (* compute_layout(root r) *)
-      match locate f (Z.to_N r) 0 with
-      | Some (k, []) => match nth_error f k with
-                        | Some t => match t_memo (fuel_of t) t (PerformLayout, Z.to_N tag) with
-                                    | Some (_, t') => set_root f k t'
-                                    | None => f end
-                        | None => f end
-      | _ => f
-      end
-  | _ => f
+(* set_style replaces (id, none); set_node_context leaves the toy style alone (the toy algorithm ignores measure data) *)
+Definition toy_layout (t : ttree) (tag : N) : option (ttree * list Z) :=
+  match t_memo (fuel_of t) t (PerformLayout, tag) with
+  | Some (_, t') => Some (t', [])
+  | None => Some (t, [])
   end.
 
-(* dirty flags of all live nodes, sorted by id *)
-Fixpoint flags (t : ttree) : list (N * bool) :=
-  match t with Node _ _ _ _ s c _ kids => (fst s, is_empty TIn TOut c) :: flat_map flags kids end.
-Fixpoint insert_sorted (x : N * bool) (l : list (N * bool)) : list (N * bool) :=
-  match l with [] => [x] | y :: r => if N.leb (fst x) (fst y) then x :: l else y :: insert_sorted x r end.
-Definition all_flags (f : forest) : list Z :=
-  map (fun p : N * bool => if snd p then 1%Z else 0%Z) (fold_right insert_sorted [] (flat_map flags f)).
+Definition toy_new_style (id : N) (none : bool) : TS := (id, none).
+Definition toy_restyle (s : TS) (none : bool) : TS := (fst s, none).
 
 (* decode: [nnodes; (parent or -1, none)*nnodes; then ops each prefixed by its length] *)
-Fixpoint take_ops (fuel : nat) (l : list Z) : list (list Z) :=
-  match fuel with
-  | O => []
-  | S f' => match l with
-            | [] => []
-            | len :: r => firstn (Z.to_nat len) r :: take_ops f' (skipn (Z.to_nat len) r)
-            end
-  end.
-
-(* initial forest from (parent, none) pairs: nodes are numbered in pre-order, so children attach in order *)
-Fixpoint build_nodes (k : nat) (l : list Z) (id : N) (f : forest) : forest * list Z :=
-  match k with
-  | O => (f, l)
-  | S k' =>
-      match l with
-      | par :: none :: r =>
-          let nd := leaf id (Z.eqb none 1) in
-          let f' := if (par <? 0)%Z then f ++ [nd]
-                    else match locate f (Z.to_N par) 0 with
-                         | Some (j, p) => match nth_error f j with
-                                          | Some t => set_root f j (update TS TIn TOut TLay t p (fun u => match u with Node _ _ _ _ s c l0 ks => TNode s c l0 (ks ++ [nd]) end))
-                                          | None => f end
-                         | None => f end in
-          build_nodes k' r (id + 1)%N f'
-      | _ => (f, l)
-      end
-  end.
-
 Definition run_case (c : list Z) : list Z :=
   match c with
   | n :: rest =>
-      let '(f0, ops) := build_nodes (Z.to_nat n) rest 0%N [] in
-      let opl := take_ops (length ops) ops in
-      snd (fold_left (fun (st : forest * list Z) o => let f' := step_op (fst st) o in (f', snd st ++ (-1)%Z :: all_flags f')) opl (f0, all_flags f0))
+      let '(f0, ops) := build_nodes TS TIn TOut TLay fst toy_new_style 0%N (Z.to_nat n) rest 0%N [] in
+      run_ops_out TS TIn TOut TLay fst toy_new_style toy_restyle (fun s => s) 0%N toy_layout f0 ops
   | [] => []
   end.
